@@ -1,8 +1,8 @@
 CONSTANTS
-  Handles = {"h1", "h2", "h3", "o1", "o2"}
-  Ops = {"o1", "o2"}
+  Handles = {"h1", "h2", "o1"}
+  Ops = {"o1"}
   InitLive = {}
-  Variant = "fixed"
+  Variant = "unsync"
   AllowClone = TRUE
   AllowTake2 = TRUE
   AllowCancel = TRUE
@@ -10,8 +10,8 @@ CONSTANTS
   FileLayer = FALSE
   SilentRelease = FALSE
   ForgetsHandle = FALSE
-  MaxMigrate = 1
-  RegisterOnce = FALSE
+  MaxMigrate = 2
+  RegisterOnce = TRUE
 SPECIFICATION FairSpec
 INVARIANTS Safe
-PROPERTIES Live NoLeakLive
+PROPERTIES Live
